@@ -10,6 +10,7 @@ import (
 	"regexp"
 	"sort"
 	"sync"
+	"sync/atomic"
 	"time"
 
 	abci "github.com/cometbft/cometbft/abci/types"
@@ -68,6 +69,7 @@ type tracker struct {
 	subs     map[string]*subTrack
 	byHash   map[string]*subTrack
 	viol     []string
+	keyGone  bool // a feeder key was deleted from the keyring while the daemon runs
 	handoffs int
 	txDec    sdk.TxDecoder
 }
@@ -146,6 +148,24 @@ func (t *tracker) handoff(sub submitter.SignalPriceSubmission) {
 	for _, other := range t.subs {
 		if other.finished {
 			continue
+		}
+		if t.keyGone {
+			// after a feeder key became unreadable a submission can end without a terminal response at the client boundary
+			// (the key lookup fails before the node is contacted). The signaller only hands off signals that are not marked
+			// in flight, so a submission sharing a signal with this hand-off has ended and released it.
+			shared := false
+			for _, a := range other.ids {
+				for _, b := range ids {
+					if a == b {
+						shared = true
+					}
+				}
+			}
+			if shared {
+				other.finished, other.outcome = true, "ended-without-terminal-response"
+				t.run.Count("B:finished:ended-without-terminal-response(key unreadable)", 1)
+				continue
+			}
 		}
 		for _, a := range other.ids {
 			for _, b := range ids {
@@ -361,6 +381,20 @@ func (b *allAvail) GetPrices(ids []string) (*bothan.GetPricesResponse, error) {
 	return out, nil
 }
 
+// flakyKeyring makes one key unreadable from a moment on without touching the (not thread-safe) in-memory backend.
+type flakyKeyring struct {
+	keyring.Keyring
+	gone atomic.Bool
+	uid  string
+}
+
+func (f *flakyKeyring) Key(uid string) (*keyring.Record, error) {
+	if f.gone.Load() && uid == f.uid {
+		return nil, fmt.Errorf("%s.info: key not found (injected)", uid)
+	}
+	return f.Keyring.Key(uid)
+}
+
 func inflightCase(run *sim.Run, id int) {
 	rng := sim.NewRng(uint64(run.Seed)).Derive(fmt.Sprintf("c20b-%d", id))
 	w := partBWorld()
@@ -372,10 +406,11 @@ func inflightCase(run *sim.Run, id int) {
 			panic(err)
 		}
 	}
+	fk := &flakyKeyring{Keyring: kb, uid: "feeder0"}
 	maxTry := rng.Range(1, 4)
 	tr := &tracker{run: run, seed: rng.U64(), maxTry: maxTry, subs: map[string]*subTrack{}, byHash: map[string]*subTrack{}, txDec: w.App.GetTxConfig().TxDecoder()}
 	cctx := client.Context{}.WithChainID("bandchain").WithCodec(cdc).WithInterfaceRegistry(w.App.InterfaceRegistry()).
-		WithTxConfig(w.App.GetTxConfig()).WithBroadcastMode(flags.BroadcastSync).WithKeyring(kb)
+		WithTxConfig(w.App.GetTxConfig()).WithBroadcastMode(flags.BroadcastSync).WithKeyring(fk)
 	remote := &remoteStub{t: tr}
 	cctx = cctx.WithClient(remote)
 	pending := &sync.Map{}
@@ -417,7 +452,18 @@ func inflightCase(run *sim.Run, id int) {
 		return
 	}
 	polls := 400
+	dropKeyAt := -1
+	if id%3 == 1 {
+		dropKeyAt = rng.Range(100, 250) // an operator rotates a feeder key in the shared keyring while the daemon runs
+	}
 	for i := 0; i < polls; i++ {
+		if i == dropKeyAt {
+			tr.mu.Lock()
+			tr.keyGone = true
+			tr.mu.Unlock()
+			fk.gone.Store(true)
+			run.Count("B:fault:feeder-key-deleted-while-running", 1)
+		}
 		sg.VerifExecuteAt(time.Now())
 		time.Sleep(time.Duration(200+rng.Intn(1500)) * time.Microsecond)
 	}
@@ -425,15 +471,39 @@ func inflightCase(run *sim.Run, id int) {
 	deadline := time.Now().Add(120 * time.Second)
 	for {
 		tr.mu.Lock()
-		open := 0
+		open, silent := 0, 0
 		for _, s := range tr.subs {
-			if !s.finished {
-				open++
+			if s.finished {
+				continue
 			}
+			if tr.keyGone {
+				// a submission whose key is unreadable ends without a terminal response: it is over once its signals are free again
+				held := false
+				for _, sid := range s.ids {
+					if _, p := pending.Load(sid); p {
+						held = true
+					}
+				}
+				if !held {
+					continue
+				}
+				silent++
+			}
+			open++
 		}
 		tr.mu.Unlock()
 		if open == 0 && len(fromSignaller) == 0 && len(toSubmitter) == 0 {
 			break
+		}
+		if open > 0 && open == silent && time.Now().After(deadline.Add(-90*time.Second)) {
+			// 30 s (time-outs here are milliseconds) without a single client call and the signals still marked in flight
+			var left []string
+			pending.Range(func(k, v any) bool { left = append(left, k.(string)); return true })
+			sort.Strings(left)
+			close(done)
+			run.Violation("pending-not-released", fmt.Sprintf("%d submissions never reached the node (feeder key unreadable) and their signals %v stay marked in flight", open, left),
+				map[string]any{"case": id, "part": "B", "keys": nKeys, "max_try": maxTry, "signals": nSig})
+			return
 		}
 		if time.Now().After(deadline) {
 			run.Inconclusive(fmt.Sprintf("part B case %d: %d submissions unfinished after 120 s", id, open))
